@@ -77,9 +77,12 @@ Proof.
 Qed.
 
 Lemma nodup_app_l (a b : list nat) : NoDup (a ++ b) -> NoDup a.
-Proof. intros H. apply NoDup_app_remove_r in H. exact H. Qed.
+Proof.
+  induction a as [|x a IH]; cbn; intros D; [constructor|]. inversion D; subst.
+  constructor; auto. intros Hi. apply H1. apply in_or_app; auto.
+Qed.
 Lemma nodup_app_r (a b : list nat) : NoDup (a ++ b) -> NoDup b.
-Proof. intros H. apply NoDup_app_remove_l in H. exact H. Qed.
+Proof. induction a as [|x a IH]; cbn; intros D; auto. inversion D; auto. Qed.
 Lemma nodup_app_disj (a b : list nat) x : NoDup (a ++ b) -> In x a -> ~ In x b.
 Proof.
   induction a as [|y a IH]; cbn; [tauto|]. intros D [->|Hi] Hb.
@@ -144,7 +147,7 @@ Proof.
   - intros m Hm. destruct (F m Hm) as [?|[u Hu]]; [left; right; auto|].
     destruct (Nat.eq_dec m n) as [->|Hne]; [left; left; auto|]. right. exists u.
     destruct (Nat.eq_dec u t) as [->|Hut]; [|rewrite Hf; auto].
-    eapply Permutation_in in Hu; eauto. destruct Hu; congruence.
+    apply (Permutation_in _ P) in Hu. destruct Hu; [congruence|auto].
 Qed.
 
 (* thread t takes the nodes L out of the structure *)
@@ -155,7 +158,7 @@ Proof.
   intros Hf P [A Z B C D E F].
   assert (Sub : forall u m, In m (H' u) -> In m (H u) \/ (u = t /\ In m L)).
   { intros u m Hi. destruct (Nat.eq_dec u t) as [->|Hu]; [|rewrite Hf in Hi; auto].
-    eapply Permutation_in in Hi; eauto. apply in_app_or in Hi. tauto. }
+    apply (Permutation_in _ P) in Hi. apply in_app_or in Hi. tauto. }
   assert (LH : forall u m, In m L -> ~ In m (H u)).
   { intros u m Hl Hh. apply (E u m Hh). apply in_or_app; auto. }
   constructor.
